@@ -1,5 +1,6 @@
 //! Whole-API canonical observation of a loaded sprite.
 use asefile::*;
+use std::result::Result;
 
 pub type Ud = Option<(Option<String>, Option<[u8; 4]>)>;
 
